@@ -170,7 +170,9 @@ def cases(ctx):
                                          "end": "zz_end"}})
             # .incbin incl. bank-end crossings
             window_end = 0x10000
-            for length, back in ((0, 0x100), (1, 0x100), (7, 7), (16, 15), (0x40, 1), (300, 0x20), (0x8000, 0x10), (70000, 0x8000 if rom != "high" else 0x9000)):
+            for length, back in ((0, 0x100), (1, 0x100), (7, 7), (16, 15), (0x40, 1), (300, 0x20), (0x8000, 0x10), (70000, 0x8000 if rom != "high" else 0x9000),
+                                 # sizes a tool might mistake for something else (a copier header, a whole bank)
+                                 (0x1FF, 0x400), (0x200, 0x400), (0x201, 0x400), (0x8200, 0x8000 if rom != "high" else 0x9000)):
                 if tier == "quick" and length > 0x8000 and rom != "low":
                     continue
                 bank = {"low": 0x02, "low2": 0x82, "high": 0x42}[rom]
@@ -181,4 +183,13 @@ def cases(ctx):
                             "spec": {"t": "data", "high": rom == "high", "org": org, "off": _phys(rom, org),
                                      "items": [("bin", list(content))], "end": "zz_end",
                                      "tail": [None, org, length]}})
-    return core.mark_must_assemble(out, {'incbin', 'data', 'ascii', 'expr-refs', 'ascii-with-table', 'shadowed'})
+    # the path as written names the file AND the symbols (every `/` and `.` becomes `_`): unusual but legal spellings
+    for rom in ("low", "high"):
+        for path, sym in (("./blob.bin", "__blob_bin"), ("gfx//tiles.bin", "gfx__tiles_bin"), ("a/./b.bin", "a___b_bin"), ("gfx/font.bin", "gfx_font_bin")):
+            org = _org(rng, rom)
+            content = [0x10, 0x20, 0x30, 0x40]
+            src = f"*={org:#08x}\nzz_start:\n.incbin '{path}'\nzz_end:\n.dl zz_end, {sym}, {sym}__size\n"
+            out.append({"kind": "incbin-path", "rom": rom, "src": src, "files": {path: content},
+                        "spec": {"t": "data", "high": rom == "high", "org": org, "off": _phys(rom, org),
+                                 "items": [("bin", content)], "end": "zz_end", "tail": [None, org, 4]}})
+    return core.mark_must_assemble(out, {'incbin-path', 'incbin', 'data', 'ascii', 'expr-refs', 'ascii-with-table', 'shadowed'})
